@@ -406,3 +406,27 @@ Section FS2.
     end.
   Definition dir_ok2 (d : path) : bool := forallb (entry_ok2 d) (listdir fs ls d).
 End FS2.
+
+(* norm_package when the file name is RELATIVE to the working directory [cwd] (Project() defaults to
+   sources ['.']; editors and supp-lint pass such names): os.path.dirname('pkg') = '' and
+   dirname('') = '', the climb `while root and exists(root/__init__.py)` ends at ''. [rel] is the list
+   of components of the relative name; a relative path p denotes cwd ++ p. *)
+Section Rel.
+  Variable fs : path -> kind.
+  Variable cwd : path.
+  Fixpoint collect_rel (fuel : nat) (dir : path) (acc : list str) : option (list str) :=
+    match fuel with
+    | 0 => None
+    | S f => if is_nil dir then Some acc
+             else if exists_ fs (cwd ++ dir ++ [init_py])
+                  then collect_rel f (dirname dir) (last dir [] :: acc)
+                  else Some acc
+    end.
+  Definition norm_package_rel (level : nat) (rest : list str) (rel : path) : nres :=
+    if level =? 0 then NOk rest else
+    match collect_rel (S (length rel)) (Nat.iter level dirname rel) [] with
+    | None => NOutOfFuel
+    | Some [] => NErr
+    | Some parts => NOk (parts ++ rest)
+    end.
+End Rel.
